@@ -640,7 +640,7 @@ PINNED = {
     "hypertuner.py": ["ParameterGrid.__init__", "ParameterGrid.__getitem__", "HyperTuner"],
     "multitask.py": ["Multitask.__set_keyword_arguments__", "Multitask.export_results"],
     "enums.py": ["ModeSolver", "TaskType", "ExportType"],
-    "helpers.py": ["average_fitness", "get_pool_executor"],
+    "helpers.py": ["average_fitness"],
     "abstract.py": [],
 }
 
